@@ -26,6 +26,9 @@ type SeqOp struct {
 	BufLen   int    `json:"len,omitempty"`    // write buffer length (0 = 4096)
 	Shared   bool   `json:"shared,omitempty"` // use the client's one reusable buffer
 	Scribble bool   `json:"scr,omitempty"`    // mutate the buffer after Write / the slice returned by Read
+	// Direct: in the "global" systems this one call goes to the disk object
+	// (disk.Get()) instead of the package-level wrapper: both routes are the same disk
+	Direct bool `json:"direct,omitempty"`
 }
 
 type Round struct {
@@ -87,16 +90,17 @@ type seqResult struct {
 type diskAPI struct {
 	d      disk.Disk
 	global bool
+	direct bool
 }
 
 func (a diskAPI) Read(x uint64) []byte {
-	if a.global {
+	if a.global && !a.direct {
 		return disk.Read(x)
 	}
 	return a.d.Read(x)
 }
 func (a diskAPI) Write(x uint64, v []byte) {
-	if a.global {
+	if a.global && !a.direct {
 		disk.Write(x, v)
 		return
 	}
@@ -110,13 +114,13 @@ func (a diskAPI) ReadTo(x uint64, b []byte) {
 	a.d.ReadTo(x, b)
 }
 func (a diskAPI) Size() uint64 {
-	if a.global {
+	if a.global && !a.direct {
 		return disk.Size()
 	}
 	return a.d.Size()
 }
 func (a diskAPI) Barrier() {
-	if a.global {
+	if a.global && !a.direct {
 		disk.Barrier()
 		return
 	}
@@ -389,6 +393,7 @@ func runSeq(p *DPlan, system string, keepLog bool, prefix string) seqResult {
 			// the round's operations against the model
 			for oi, op := range rd.Ops {
 				res.ops++
+				api.direct = op.Direct
 				sysBefore := k.Syscalls()
 				faultInOp := func() *simunix.Fault {
 					if ri != 0 {
@@ -760,7 +765,7 @@ func genSeqOps(rng *simrt.Rand, n uint64, count int, idBase uint64, odd bool) []
 		}
 		switch rng.Intn(12) {
 		case 0, 1, 2, 3:
-			op := SeqOp{Kind: "write", Addr: a, ID: idBase + uint64(i) + 1, Shared: rng.Chance(1, 4), Scribble: rng.Chance(1, 3)}
+			op := SeqOp{Kind: "write", Addr: a, ID: idBase + uint64(i) + 1, Shared: rng.Chance(1, 4), Scribble: rng.Chance(1, 3), Direct: rng.Chance(1, 4)}
 			if rng.Chance(1, 8) {
 				op.ID = 0 // an all-zero block
 			} else if rng.Chance(1, 5) {
@@ -787,7 +792,7 @@ func genSeqOps(rng *simrt.Rand, n uint64, count int, idBase uint64, odd bool) []
 				written = append(written, a)
 			}
 		case 4, 5, 6:
-			ops = append(ops, SeqOp{Kind: "read", Addr: a, Scribble: rng.Chance(1, 3)})
+			ops = append(ops, SeqOp{Kind: "read", Addr: a, Scribble: rng.Chance(1, 3), Direct: rng.Chance(1, 4)})
 		case 7, 8, 9:
 			ops = append(ops, SeqOp{Kind: "readto", Addr: a, Shared: rng.Chance(1, 3)})
 		case 10:
